@@ -52,6 +52,8 @@ fn main() {
   let mut trie: Option<rzmq::verif_facade::VSubscriptionTrie> = None;
   let mut lb: Option<rzmq::verif_facade::VLoadBalancer> = None;
   let mut eb: Option<rzmq::verif_facade::VEgressBuffer> = None;
+  let mut ing: Option<(rzmq::verif_facade::VAnonymousIngress, Vec<rzmq::verif_facade::VPipeSender>)> = None;
+  let ing_rt = tokio::runtime::Builder::new_current_thread().enable_all().build().unwrap();
   let base = Instant::now();
   for line in stdin.lock().lines() {
     let line = line.unwrap();
@@ -226,6 +228,47 @@ fn main() {
           }
           println!("ingress delivered {}", out.join(","));
         });
+      }
+      "ing_new" => {
+        let e = rzmq::verif_facade::VAnonymousIngress::new(4);
+        let s = vec![e.register_pipe(0, 4), e.register_pipe(1, 4)];
+        ing = Some((e, s));
+      }
+      "ing_send" => {
+        let p: usize = it.next().unwrap().parse().unwrap();
+        let tags = unhex(it.next().unwrap());
+        let mut fb = rzmq::FrameBatch::new();
+        for (i, t) in tags.iter().enumerate() {
+          let mut m = rzmq::Msg::from_vec(vec![*t]);
+          if i + 1 < tags.len() {
+            m.set_flags(rzmq::MsgFlags::MORE);
+          }
+          fb.push(m);
+        }
+        println!("ing_send {}", ing.as_ref().unwrap().1[p].try_send(fb));
+      }
+      "ing_recv" => {
+        let e = &ing.as_ref().unwrap().0;
+        match ing_rt.block_on(e.recv(Some(Duration::ZERO))) {
+          Ok(m) => println!("frame {}{}", hex(m.data().unwrap_or(&[])), if m.is_more() { "+" } else { "" }),
+          Err(_) => println!("frame none"),
+        }
+      }
+      "ing_recvmp" => {
+        let e = &ing.as_ref().unwrap().0;
+        match ing_rt.block_on(e.recv_multipart(Some(Duration::ZERO))) {
+          Ok(b) => {
+            for m in b.iter() {
+              println!("frame {}{}", hex(m.data().unwrap_or(&[])), if m.is_more() { "+" } else { "" });
+            }
+          }
+          Err(_) => println!("frame none"),
+        }
+      }
+      "ing_dereg" => {
+        let p: usize = it.next().unwrap().parse().unwrap();
+        ing.as_ref().unwrap().0.deregister_pipe(p);
+        println!("detach {}", p);
       }
       "inproc" => {
         use rzmq::SocketType;
